@@ -27,7 +27,7 @@ RULE = ('cases = AE configuration (every subset of 2 served SOP classes x every 
         'parsed by R-codec + a probe message on every accepted context + a probe association '
         'for refused/unknown ids; non-trivial = at least one context refused or several TS; '
         'distinct = distinct (configuration, request)'
-        '; hot family: 2-3 requestors negotiating with a fresh entity at once under line-level pre-emption, each using its first accepted context immediately with a file-backed C-STORE; re-proposal of an accepted id for an unserved class in a second association')
+        '; hot family: 2-3 requestors negotiating with a fresh entity at once under line-level pre-emption, each using its first accepted context immediately with a file-backed C-STORE; re-proposal of an accepted id for an unserved class in a second association; late_add: classes configured between connect and request')
 ASSUMPTIONS = ['result code of a refused context is only required to be non-zero',
                'the probe on a refused id may end the association in any way; the requirement is '
                'that no service callable runs']
@@ -95,7 +95,7 @@ def cases(tier, seed):
         yield dict(served=served, sup=sup, ctx=ctx, seed=seed * 100003 + i,
                    titles=[rnd.choice(['SRV', 'A', 'SIXTEEN_CHARS_AE', 'x y']),
                            rnd.choice(['CLI', 'B', 'CALLING_AE_TITLE'])],
-                   scu_first=rnd.choice([0, 0, 1, 2]),
+                   scu_first=rnd.choice([0, 0, 1, 2]), late_add=rnd.random() < 0.25,
                    appctx=rnd.choice([None, None, '1.2.826.0.1.3680043.8.498.77.1',
                                       '1.2.840.10008.3.1.1.1.9']))
 
@@ -236,6 +236,17 @@ def run_case(case):
             rsp.status = 0
             asce.send(rsp, ctx.id)
         sentinel.sop_classes = list(served)
+        late = None
+        if case.get('late_add') and len(served) >= 1:
+            # part of what the entity serves is configured while the requestor is already
+            # connected but has not sent its request yet: the request is negotiated against
+            # what is configured when it arrives - and what was accepted is then served
+            k_ = len(served) // 2
+
+            def late(asce, ctx, msg):
+                return sentinel(asce, ctx, msg)
+            late.sop_classes = list(served[k_:])
+            sentinel.sop_classes = list(served[:k_])
         ae = world.make_ae(applicationentity.AE, 'SRV', 11112, sup, 16384)
         if case.get('scu_first') and served:
             # the entity also USES some of the classes it serves, and was told so first
@@ -265,8 +276,13 @@ def run_case(case):
                 out['probes'].append((pid, ts, m, calls[n0:]))
             peer.release()
         appctx = case.get('appctx') or rc.APP_CONTEXT
+        def before_rq():
+            world.sim.sleep(0.3)
+            ae.add_scp(late)
+            world.sim.sleep(0.1)
         peer = peers.ScriptedRequestor(world.sim, world.net, ADDR, ctxs, called=called,
-                                       calling=calling, script=script, app_context=appctx)
+                                       calling=calling, script=script, app_context=appctx,
+                                       before_rq=before_rq if late is not None else None)
         world.spawn(peer.run, 'peer0', role='user')
         world.run(tmax=300)
         world.drain(1.0)
